@@ -281,14 +281,19 @@ func (client *client) setError(err error) {
 				if code, ok := err.(*codes.Error); ok {
 					if client.IsConnected() {
 						// send Disconnect
-						client.write(&packets.Disconnect{
+						// Must not block: client.close is only closed below, and if the write loop
+						// has already terminated nobody drains client.out any more.
+						select {
+						case client.out <- &packets.Disconnect{
 							Version: packets.Version5,
 							Code:    code.Code,
 							Properties: &packets.Properties{
 								ReasonString: code.ReasonString,
 								User:         kvsToProperties(code.UserProperties),
 							},
-						})
+						}:
+						default:
+						}
 					}
 				}
 			}
